@@ -496,6 +496,7 @@ func (s *FlowStats) UnmarshalBinary(data []byte) error {
 	n += 2
 	s.Flags = binary.BigEndian.Uint16(data[n:])
 	n += 2
+	s.pad2 = make([]byte, 4)
 	copy(s.pad2, data[n:n+4])
 	n += 4
 	s.Cookie = binary.BigEndian.Uint64(data[n:])
@@ -625,6 +626,7 @@ func (s *AggregateStats) UnmarshalBinary(data []byte) error {
 	n += 8
 	s.FlowCount = binary.BigEndian.Uint32(data[n:])
 	n += 4
+	s.pad = make([]byte, 4)
 	copy(s.pad, data[n:])
 	return nil
 }
@@ -679,8 +681,10 @@ func (s *TableStats) UnmarshalBinary(data []byte) error {
 	n := 0
 	s.TableId = data[0]
 	n += 1
+	s.pad = make([]byte, 3)
 	copy(s.pad, data[n:])
 	n += len(s.pad)
+	s.Name = make([]byte, MAX_TABLE_NAME_LEN)
 	copy(s.Name, data[n:])
 	n += len(s.Name)
 	s.Wildcards = binary.BigEndian.Uint32(data[n:])
@@ -801,6 +805,7 @@ func (s *PortStats) UnmarshalBinary(data []byte) error {
 	n := 0
 	s.PortNo = binary.BigEndian.Uint16(data[n:])
 	n += 2
+	s.pad = make([]byte, 6)
 	copy(s.pad, data[n:])
 	n += len(s.pad)
 	s.RxPackets = binary.BigEndian.Uint64(data[n:])
@@ -906,6 +911,7 @@ func (s *QueueStats) UnmarshalBinary(data []byte) error {
 	n := 0
 	s.PortNo = binary.BigEndian.Uint16(data[n:])
 	n += 2
+	s.pad = make([]byte, 2)
 	copy(s.pad, data[n:])
 	n += len(s.pad)
 	s.QueueId = binary.BigEndian.Uint32(data[n:])
